@@ -23,6 +23,11 @@ class Attribute(_expression.Any):
         self._name = str(name)
         self._doc = str(doc)
 
+        try:
+            _ = data_type.bit_length_set
+        except TypeError:  # E.g., a service type: it is not serializable, so nothing can be of that type.
+            raise InvalidTypeError("%s cannot be used as the type of an attribute" % data_type) from None
+
         if isinstance(data_type, VoidType):
             if self._name:
                 raise InvalidNameError("Void-typed fields can be used only for padding and cannot be named")
